@@ -493,6 +493,9 @@ func (in *Interp) BinOp(op string, a, b Value) (Value, *Err) {
 			if e != nil {
 				return nil, e
 			}
+			if len(s)+len(bs) > 1<<22 {
+				return nil, &Err{Msg: "unspecified: string too large for the reference model", Unspec: true, Budget: true}
+			}
 			return s + bs, nil
 		}
 		if la, ok := a.(*List); ok {
